@@ -3,6 +3,7 @@ package rules
 import (
 	"fmt"
 	"go/ast"
+	"go/token"
 	"go/types"
 	"os"
 	"sort"
@@ -251,6 +252,7 @@ func loaderFamily(p *core.Prog) walkerFamily {
 }
 
 func c02(r *core.Report) {
+	c02Reset(r)
 	p := r.Prog
 	r.Assumption("that the object found equals the one designated (JSON-pointer drill-down, path joining for every relative spelling, the raw re-read fallback) and resolution-order effects are value-level and not decided")
 
@@ -705,4 +707,61 @@ func stripPrefix(chain []string, prefix string) ([]string, bool) {
 		}
 	}
 	return chain[len(parts):], true
+}
+
+// c02Reset: per-load state does not survive into the next load.
+func c02Reset(r *core.Report) {
+	p := r.Prog
+	info := p.Pkg("openapi3").TypesInfo
+	r.RunRule("C02.reset", "every load starts from a clean resolution state: each exported Load* method of Loader either delegates to another exported Load* method or calls resetVisitedPathItemRefs before its first call of a function that resolves references (loadFromURIInternal, loadFromDataWithPathInternal, ResolveRefsIn); a loader reused after a failed load otherwise still holds the failed load's in-progress references and treats them as cycles, leaving references of the next document silently unresolved", 5, func() {
+		loaderT := p.NamedType("openapi3", "Loader")
+		resolving := map[string]bool{"loadFromURIInternal": true, "loadFromDataWithPathInternal": true, "ResolveRefsIn": true}
+		for i := 0; i < loaderT.NumMethods(); i++ {
+			m := loaderT.Method(i)
+			if !m.Exported() || !strings.HasPrefix(m.Name(), "Load") {
+				continue
+			}
+			fd := p.Decl(m)
+			if fd == nil || fd.Body == nil {
+				continue
+			}
+			key := "reset:" + m.Name()
+			var resetPos, resolvePos, delegatePos token.Pos
+			ast.Inspect(fd.Body, func(n ast.Node) bool {
+				c, ok := n.(*ast.CallExpr)
+				if !ok {
+					return true
+				}
+				callee := core.CalleeOf(info, c)
+				if callee == nil {
+					return true
+				}
+				switch {
+				case callee.Name() == "resetVisitedPathItemRefs":
+					if resetPos == 0 {
+						resetPos = c.Pos()
+					}
+				case resolving[callee.Name()]:
+					if resolvePos == 0 {
+						resolvePos = c.Pos()
+					}
+				case callee.Exported() && strings.HasPrefix(callee.Name(), "Load") && callee.Type().(*types.Signature).Recv() != nil && core.NamedOf(callee.Type().(*types.Signature).Recv().Type()) == loaderT:
+					if delegatePos == 0 {
+						delegatePos = c.Pos()
+					}
+				}
+				return true
+			})
+			switch {
+			case resolvePos == 0 && delegatePos != 0:
+				r.OK(key, p.Pos(fd.Pos()), "delegates to another Load method")
+			case resolvePos != 0 && resetPos != 0 && resetPos < resolvePos:
+				r.OK(key, p.Pos(fd.Pos()), "resets the resolution state first")
+			case resolvePos == 0:
+				r.Trivial(key, p.Pos(fd.Pos()), "does not resolve references")
+			default:
+				r.Bad(key, p.Pos(fd.Pos()), m.Name()+" resolves references without first resetting the loader's in-progress reference state: on a reused loader, references left over from a failed load are taken for cycles and the document is returned with them unresolved")
+			}
+		}
+	})
 }
